@@ -43,6 +43,55 @@ func runC18(c *core.Ctx) {
 	c.Doc("results", 3, "Get/Remove/Put results and effects under equal / not equal")
 
 	loopsProgress(c, "loops-progress", pkg)
+	// "prints its keys in ascending order" - of the list as it is now: printing keeps no state
+	c.Doc("print-pure", 1, "String() of the list and of its nodes stores nothing outside its own frame and reads no package state")
+	{
+		n, bad := 0, 0
+		for _, fn := range c.W.SourceFuncs(pkg) {
+			if fn.Name() != "String" || fn.Signature.Recv() == nil {
+				continue
+			}
+			n++
+			for _, b := range fn.Blocks {
+				for _, in := range b.Instrs {
+					switch x := in.(type) {
+					case *ssa.Store:
+						root := x.Addr
+						for {
+							switch y := root.(type) {
+							case *ssa.IndexAddr:
+								root = y.X
+								continue
+							case *ssa.FieldAddr:
+								root = y.X
+								continue
+							}
+							break
+						}
+						if al, isAl := root.(*ssa.Alloc); !isAl || al.Parent() != fn {
+							bad++
+							c.Fail("print-pure", "skiplist."+fnLabel(fn), x.Pos(), "String() stores into memory that outlives the call (a cached rendering): a later print can show the list as it was, not as it is")
+						}
+					case *ssa.MapUpdate:
+						bad++
+						c.Fail("print-pure", "skiplist."+fnLabel(fn), x.Pos(), "String() updates a map")
+					default:
+						for _, op := range in.Operands(nil) {
+							if op != nil && *op != nil {
+								if g, isG := (*op).(*ssa.Global); isG && g.Pkg == fn.Pkg && !ir.ImmutableGlobal(g) {
+									bad++
+									c.Fail("print-pure", "skiplist."+fnLabel(fn), in.Pos(), "String() uses the package variable %s", g.Name())
+								}
+							}
+						}
+					}
+				}
+			}
+		}
+		if bad == 0 {
+			c.Check(n > 0, "print-pure", "skiplist", 0, fmt.Sprintf("%d String methods", n), "no String method found")
+		}
+	}
 	ctor := c.W.Func(pkg, "New")
 	if ctor == nil {
 		c.Undecided("compare-normal-form", "skiplist.New", 0, "constructor not found")
